@@ -1,3 +1,447 @@
-/- C17: property theorems (stub, not yet built) -/
+/-
+C17 — Scarce capacity is never over-committed in a scheduling pass.
+
+Property theorems only (helper lemmas: `Karp/Proofs/ReservationLemmas.lean`, `Karp/Proofs/DraTrackerLemmas.lean`).
+Models: `Karp/Model/Reservation.lean` (ReservationManager, the NodeClaim reservation protocol, FinalizeScheduling, the
+reserved-offering branch of addToNewNodeClaim / trySchedule), `Karp/Model/DraTracker.lean` (AllocationTracker).
+Spec:   `Karp/Spec/Reserved.lean` (holder ledger; end state of a pass), evaluated on the real code by the driver.
+-/
+import Karp.Proofs.ReservationLemmas
+import Karp.Proofs.DraTrackerLemmas
+import Karp.Proofs.ReservedLedgerLemmas
+import Karp.Spec.Reserved
+
 namespace Karp.C17
+open Karp.Reservation Karp.Req
+
+/-! ## Fact expectations over the regenerated facts -/
+
+/-- the two modes are distinct constants; the model's `strictMode` is the generated one -/
+theorem fact_modes : Karp.Gen.C17Facts.reservedOfferingModeFallback = 0 ∧ Karp.Gen.C17Facts.reservedOfferingModeStrict = 1 := by decide
+
+/-- `NodeClaim.Add` reserves the new set before it releases what is no longer compatible (so a reservation the claim
+    keeps is never handed to somebody else in between), and commits the DRA allocation before it releases pruned types -/
+theorem fact_add_order :
+    Karp.Gen.C17Facts.nodeClaimAddCalls = ["Reserve", "releaseReservedOfferings", "Commit", "ReleaseInstanceType"] := by decide
+
+/-- `offeringsToReserve` (called from `CanAdd`, possibly concurrently) only *asks* the manager; it never mutates it -/
+theorem fact_canAdd_readonly :
+    Karp.Gen.C17Facts.offeringsToReserveCalls = ["CanReserve", "NewReservedOfferingError", "NewReservedOfferingError"] := by decide
+
+/-- `trySchedule` tests for the reserved-offering error before it relaxes the pod -/
+theorem fact_trySchedule_order : Karp.Gen.C17Facts.tryScheduleCalls = ["add", "IsReservedOfferingError", "Relax"] := by decide
+
+/-- `addToNewNodeClaim` inspects every template error for the reserved-offering class before any `Add` -/
+theorem fact_addToNew_order : Karp.Gen.C17Facts.addToNewNodeClaimReservedCalls = ["CanAdd", "IsReservedOfferingError", "Add"] := by decide
+
+/-- `trySchedule` returns the reserved-offering error as it is (no relaxation, no retry) -/
+theorem fact_trySchedule_reserved :
+    Karp.Gen.C17Facts.tryScheduleReservedCond = "IsReservedOfferingError(err)" ∧
+    Karp.Gen.C17Facts.tryScheduleReservedBody = ["return err"] := by decide
+
+/-- `addToNewNodeClaim` on a reserved-offering error of template `i`: under the mutex, unless an earlier template already
+    decided (`i >= idx`), any success published so far is discarded, `i` becomes the deciding index, and the search stops -/
+theorem fact_addToNew_reserved :
+    Karp.Gen.C17Facts.addToNewReservedCond = "IsReservedOfferingError(err)" ∧
+    Karp.Gen.C17Facts.addToNewReservedBody =
+      ["mu.Lock()", "defer mu.Unlock()", "if i >= idx { return false }", "newNodeClaim = nil", "updatedRequirements = nil",
+       "updatedInstanceTypes = nil", "offeringsToReserve = nil", "allocationResult = nil", "idx = i", "return false"] := by decide
+
+/-- the two strict-mode guards of `offeringsToReserve` are the model's -/
+theorem fact_strict_guards :
+    Karp.Gen.C17Facts.strictBlockCond = "n.reservedOfferingMode == ReservedOfferingModeStrict" ∧
+    Karp.Gen.C17Facts.strictBlockBody =
+      ["if hasCompatibleOffering && len(reservedOfferings) == 0", "if len(n.reservedOfferings) != 0 && len(reservedOfferings) == 0"] := by decide
+
+/-- provisioning passes run in strict mode -/
+theorem fact_provisioner_strict : Karp.Gen.C17Facts.provisionerScheduleStrict = true := by decide
+
+/-- `FinalizeScheduling`: capacity type is assigned (`NewRequirement`), the reservation ids are `Add`ed -/
+theorem fact_finalize_calls :
+    Karp.Gen.C17Facts.finalizeCalls = ["NewRequirement", "Add", "NewRequirement", "addDaemonRequests"] := by decide
+
+/-! ## The reservation manager -/
+
+/-- **C17_new_capacity** — `NewReservationManager` knows exactly the reservation ids some reserved offering names and
+    starts each at the *least* capacity any of them reports (all catalogs, any order, any duplication across pools). -/
+theorem C17_new_capacity (offerings : List (Id × Int)) (id : Id) :
+    ((RM.new offerings).known id = true ↔ ∃ o ∈ offerings, o.1 = id) ∧
+    ((RM.new offerings).known id = true →
+      (∃ o ∈ offerings, o.1 = id ∧ o.2 = (RM.new offerings).remaining id) ∧
+      (∀ o ∈ offerings, o.1 = id → (RM.new offerings).remaining id ≤ o.2)) :=
+  new_min offerings id
+
+/-- **C17_reserve_inv** — for every catalog and EVERY sequence of manager operations (guarded or not, any hostnames,
+    any ids, duplicates, unknown ids) that has not hit one of the two panics: per reservation id
+    `remaining + |holders| = initial capacity`, `remaining ≥ 0`, and no hostname is recorded twice. -/
+theorem C17_reserve_inv (offerings : List (Id × Int)) (hcap : ∀ o ∈ offerings, 0 ≤ o.2) (ops : List Reservation.Op) (rm : RM)
+    (hrun : runState (RM.new offerings) ops = some rm) :
+    Ledger (fun id => (RM.new offerings).remaining id) rm :=
+  ledger_runState _ ops _ rm (ledger_new offerings hcap) hrun
+
+/-- **C17_never_overcommitted** — hence the number of hostnames holding a reservation never exceeds its capacity. -/
+theorem C17_never_overcommitted (offerings : List (Id × Int)) (hcap : ∀ o ∈ offerings, 0 ≤ o.2) (ops : List Reservation.Op) (rm : RM)
+    (hrun : runState (RM.new offerings) ops = some rm) (id : Id) :
+    (rm.holders id : Int) ≤ (RM.new offerings).remaining id := by
+  have L := C17_reserve_inv offerings hcap ops rm hrun
+  have h1 := L.sum id
+  have h2 := L.nonneg id
+  omega
+
+/-- **C17_capacity_is_least** — the manager's initial capacity of every reservation is the specification's
+    `capOf` (least capacity over the offerings naming it). -/
+theorem C17_capacity_is_least (offerings : List (Id × Int)) (id : Id) :
+    Karp.Spec.Reserved.capOf offerings id = (RM.new offerings).capacity.lookup id :=
+  capOf_eq offerings id
+
+/-- **C17_rm_observations** (refinement, all catalogs, all histories) — everything an observer sees of the manager —
+    every `CanReserve` / `HasReservation` / `RemainingCapacity` answer, every grant, and where a panic ends the
+    history — equals what the holder ledger prescribes, in which nothing is counted incrementally: free slots are always
+    `capacity − |holders|` and a slot is handed out only while that is positive. -/
+theorem C17_rm_observations (offerings : List (Id × Int)) (hcap : ∀ o ∈ offerings, 0 ≤ o.2) (ops : List Reservation.Op) :
+    (runOps (RM.new offerings) ops).2 = Karp.Spec.ReservedLedger.specObs offerings [] ops :=
+  sim_obs offerings ops _ _ (sim_init offerings hcap)
+
+/-! ## The NodeClaim protocol: any pass, seen from the manager -/
+
+/-- **C17_pass_inv** — take any catalog, either mode, the gate on or off, and ANY sequence of `CanAdd`/`Add` rounds (any
+    claims — in-flight or freshly opened —, any compatible-offering lists drawn from the catalog's reservations; this
+    covers every reserve/release sequence real bin-packing can produce).  Then
+    * neither panic branch of the manager is reachable,
+    * per reservation: `remaining + #claims whose reservedOfferings name it = capacity`, `remaining ≥ 0`,
+    * what the manager records for a hostname is exactly that claim's `reservedOfferings`,
+    * hostnames are unique. -/
+theorem C17_pass_inv (offerings : List (Id × Int)) (hcap : ∀ o ∈ offerings, 0 ≤ o.2) (gate : Bool) (mode : Nat)
+    (rs : List Round) (hk : ∀ r ∈ rs, ∀ id ∈ r.compat, id ∈ offerings.map (·.1)) :
+    ∃ st, rounds gate mode (St.init offerings) rs = .ok st ∧
+      Proto (offerings.map (·.1)) (fun id => (RM.new offerings).remaining id) st :=
+  rounds_preserves _ _ gate mode rs _ (proto_init offerings hcap) hk
+
+/-- **C17_holders_le_capacity** — in every state a pass can reach, the NodeClaims holding a reservation number at most
+    its capacity. -/
+theorem C17_holders_le_capacity (offerings : List (Id × Int)) (hcap : ∀ o ∈ offerings, 0 ≤ o.2) (gate : Bool) (mode : Nat)
+    (rs : List Round) (hk : ∀ r ∈ rs, ∀ id ∈ r.compat, id ∈ offerings.map (·.1)) (st : St)
+    (hrun : rounds gate mode (St.init offerings) rs = .ok st) (id : Id) :
+    (holdersOf st.claims id : Int) ≤ (RM.new offerings).remaining id := by
+  obtain ⟨st', hr, P⟩ := C17_pass_inv offerings hcap gate mode rs hk
+  rw [hrun] at hr
+  cases hr
+  have h1 := P.sum id
+  have h2 := P.nonneg id
+  omega
+
+/-- **C17_claim_holds_exactly** — … and each claim of the pass holds, in the manager's books, exactly the ids of its
+    own `reservedOfferings` (so nothing leaks when requirements narrowing releases a reservation). -/
+theorem C17_claim_holds_exactly (offerings : List (Id × Int)) (hcap : ∀ o ∈ offerings, 0 ≤ o.2) (gate : Bool) (mode : Nat)
+    (rs : List Round) (hk : ∀ r ∈ rs, ∀ id ∈ r.compat, id ∈ offerings.map (·.1)) (st : St)
+    (hrun : rounds gate mode (St.init offerings) rs = .ok st) :
+    ∀ c ∈ st.claims, ∀ id, st.rm.has c.host id = c.reserved.contains id := by
+  obtain ⟨st', hr, P⟩ := C17_pass_inv offerings hcap gate mode rs hk
+  rw [hrun] at hr
+  cases hr
+  intro c hc id
+  rw [P.held c.host id, claimOf_mem _ P.hosts c hc]
+
+/-! ## Finalization: pinned to exactly the held reservations -/
+
+/-- **C17_pinned** — after `FinalizeScheduling` a claim with reservations admits capacity type `reserved` only, and
+    admits a reservation id iff it is one of the held ids (and the requirements it had before admitted it — which they do
+    for every held id, see `C17_pinned_exact`). -/
+theorem C17_pinned (ridKey : String) (hne : ridKey ≠ capacityTypeKey) (R : Reqs) (c : Claim) (hc : c.reserved ≠ []) :
+    (∀ v, ((finalize ridKey R c).get capacityTypeKey).has v = (v == reservedValue)) ∧
+    (∀ v, ((finalize ridKey R c).get ridKey).has v = (c.reserved.contains v && (R.get ridKey).has v)) := by
+  have he : c.reserved.isEmpty = false := by
+    cases hr : c.reserved with
+    | nil => exact absurd hr hc
+    | cons _ _ => rfl
+  unfold finalize
+  simp only [he, Bool.false_eq_true, if_false]
+  constructor
+  · intro v
+    rw [get_add1_ne _ _ _ (by simpa [inReq] using (fun e : capacityTypeKey = ridKey => hne e.symm)), get_set_eq, has_inReq]
+    simp
+    rfl
+  · intro v
+    have := has_add1 (R.set capacityTypeKey (inReq capacityTypeKey [reservedValue])) (inReq ridKey c.reserved) v
+    simp only [inReq] at this ⊢
+    rw [this]
+    have hg := get_set_ne R capacityTypeKey ridKey (inReq capacityTypeKey [reservedValue]) hne
+    simp only [inReq] at hg
+    rw [hg]
+    simp [Req.has, withinBounds]
+
+/-- **C17_pinned_exact** — when every held id was admitted by the claim's requirements (it is: the offering was
+    compatible when it was reserved), the finalized claim admits exactly the held reservation ids. -/
+theorem C17_pinned_exact (ridKey : String) (hne : ridKey ≠ capacityTypeKey) (R : Reqs) (c : Claim) (hc : c.reserved ≠ [])
+    (hadm : ∀ id ∈ c.reserved, (R.get ridKey).has id = true) (v : Val) :
+    ((finalize ridKey R c).get ridKey).has v = c.reserved.contains v := by
+  rw [(C17_pinned ridKey hne R c hc).2 v]
+  by_cases hv : c.reserved.contains v = true
+  · rw [hv, hadm v (List.contains_iff_mem.mp hv)]; rfl
+  · have : c.reserved.contains v = false := by simpa using hv
+    rw [this]; rfl
+
+/-- **C17_unpinned** — a claim without reservations is left untouched. -/
+theorem C17_unpinned (ridKey : String) (R : Reqs) (c : Claim) (hc : c.reserved = []) : finalize ridKey R c = R := by
+  unfold finalize; simp [hc]
+
+/-! ## Strict mode: deferred, never a silent fallback -/
+
+/-- **C17_strict_defers** — strict mode, gate on: compatible reserved offerings exist, the claim holds none of them and
+    every one is exhausted ⇒ `CanAdd` returns the reserved-offering error (for every manager state in which the ids are
+    known). -/
+theorem C17_strict_defers (rm : RM) (c : Claim) (compat : List Id) (hne : compat ≠ [])
+    (hk : ∀ id ∈ compat, rm.known id = true)
+    (hex : ∀ id ∈ compat, rm.has c.host id = false ∧ rm.remaining id = 0) :
+    offeringsToReserve true strictMode rm c compat = .ok none := by
+  rw [offeringsToReserve_known true strictMode rm c compat hk]
+  have hres : reservable rm c.host compat = [] := by
+    apply List.filter_eq_nil_iff.mpr
+    intro id hid
+    obtain ⟨h1, h2⟩ := hex id hid
+    simp [h1, h2]
+  have hce : compat.isEmpty = false := by
+    cases hcp : compat with
+    | nil => exact absurd hcp hne
+    | cons _ _ => rfl
+  simp [hres, hce]
+
+/-- **C17_strict_no_silent_fallback** — strict mode, gate on: whenever `CanAdd` succeeds although compatible reserved
+    offerings exist (or the claim already held reservations), at least one reservation is taken: a pod is never added
+    to a claim that silently falls back to non-reserved capacity. -/
+theorem C17_strict_no_silent_fallback (rm : RM) (c : Claim) (compat : List Id) (ids : List Id)
+    (hk : ∀ id ∈ compat, rm.known id = true)
+    (hres : offeringsToReserve true strictMode rm c compat = .ok (some ids))
+    (hne : compat ≠ [] ∨ c.reserved ≠ []) : ids ≠ [] := by
+  rw [offeringsToReserve_known true strictMode rm c compat hk] at hres
+  simp only [Bool.not_true, Bool.false_eq_true, if_false, BEq.rfl, Bool.true_and] at hres
+  intro hids
+  split at hres
+  · cases hres
+  · rename_i hcond
+    injection hres with hres
+    injection hres with hres
+    rw [hids] at hres
+    apply hcond
+    rw [hres]
+    rcases hne with h | h
+    · have : compat.isEmpty = false := by
+        cases hcp : compat with
+        | nil => exact absurd hcp h
+        | cons _ _ => rfl
+      simp [this]
+    · have : c.reserved.isEmpty = false := by
+        cases hcp : c.reserved with
+        | nil => exact absurd hcp h
+        | cons _ _ => rfl
+      simp [this]
+
+/-- **C17_fallback_never_defers** — in fallback mode (disruption simulations) `CanAdd` never reports the reserved-offering
+    error. -/
+theorem C17_fallback_never_defers (gate : Bool) (rm : RM) (c : Claim) (compat : List Id)
+    (hk : ∀ id ∈ compat, rm.known id = true) :
+    offeringsToReserve gate fallbackMode rm c compat ≠ .ok none := by
+  rw [offeringsToReserve_known gate fallbackMode rm c compat hk]
+  have : (fallbackMode == strictMode) = false := by decide
+  cases gate <;> simp [this]
+
+/-- **C17_strict_no_lower_pool** — `addToNewNodeClaim`: a claim is opened from template `i` only if every template
+    before it (greater weight) *plainly* failed; a reserved-offering error at an earlier template stops the search
+    (no fallback to a lower-weight NodePool) and the pod's error is of the reserved-offering class. -/
+theorem C17_strict_no_lower_pool (outs : List TOut) :
+    (∀ i, pickTemplate outs 0 = some i → outs[i]? = some TOut.ok ∧ ∀ j : Nat, j < i → outs[j]? = some TOut.fail) ∧
+    (∀ j : Nat, outs[j]? = some TOut.reservedError → (∀ k : Nat, k < j → outs[k]? = some TOut.fail) →
+      pickTemplate outs 0 = none ∧ newClaimDeferred outs = true) := by
+  have gen : ∀ (outs : List TOut) (b : Nat),
+      (∀ i, pickTemplate outs b = some i → b ≤ i ∧ outs[i - b]? = some TOut.ok ∧ ∀ j : Nat, j < i - b → outs[j]? = some TOut.fail) ∧
+      (∀ j : Nat, outs[j]? = some TOut.reservedError → (∀ k : Nat, k < j → outs[k]? = some TOut.fail) → pickTemplate outs b = none) := by
+    intro outs
+    induction outs with
+    | nil => intro b; exact ⟨by simp [pickTemplate], by simp⟩
+    | cons o os ih =>
+      intro b
+      cases o with
+      | ok =>
+        refine ⟨?_, ?_⟩
+        · intro i hi
+          simp only [pickTemplate, Option.some.injEq] at hi
+          subst hi
+          simp
+        · intro j hj hall
+          cases j with
+          | zero => simp at hj
+          | succ j => have := hall 0 (by omega); simp at this
+      | reservedError =>
+        refine ⟨by simp [pickTemplate], ?_⟩
+        intro j _ _; rfl
+      | fail =>
+        obtain ⟨ih1, ih2⟩ := ih (b + 1)
+        refine ⟨?_, ?_⟩
+        · intro i hi
+          simp only [pickTemplate] at hi
+          obtain ⟨hb, hok, hfail⟩ := ih1 i hi
+          have hib : i - b = (i - (b + 1)) + 1 := by omega
+          refine ⟨by omega, ?_, ?_⟩
+          · rw [hib, List.getElem?_cons_succ]; exact hok
+          · intro j hj
+            cases j with
+            | zero => rfl
+            | succ j => rw [List.getElem?_cons_succ]; exact hfail j (by omega)
+        · intro j hj hall
+          cases j with
+          | zero => simp at hj
+          | succ j =>
+            simp only [pickTemplate]
+            rw [List.getElem?_cons_succ] at hj
+            apply ih2 j hj
+            intro k hk
+            have := hall (k + 1) (by omega)
+            rwa [List.getElem?_cons_succ] at this
+  refine ⟨?_, ?_⟩
+  · intro i hi
+    obtain ⟨_, h2, h3⟩ := (gen outs 0).1 i hi
+    exact ⟨by simpa using h2, fun j hj => h3 j (by simpa using hj)⟩
+  · intro j hj hall
+    have hnone := (gen outs 0).2 j hj hall
+    refine ⟨hnone, ?_⟩
+    unfold newClaimDeferred
+    rw [hnone]
+    have : TOut.reservedError ∈ outs := List.mem_of_getElem? hj
+    simp [this]
+
+/-- **C17_strict_no_relax** — `trySchedule`: if the attempt after `k` relaxations reports the reserved-offering error
+    (all earlier attempts failing otherwise), the pod is deferred at once: exactly `k` relaxations were performed and no
+    later attempt is made, whatever it would have returned. -/
+theorem C17_strict_no_relax (k : Nat) (later : List (Option Bool)) :
+    trySchedule (List.replicate k (some false) ++ some true :: later) 0 = (false, k, true) := by
+  have gen : ∀ (k n : Nat), trySchedule (List.replicate k (some false) ++ some true :: later) n = (false, n + k, true) := by
+    intro k
+    induction k with
+    | zero => intro n; simp [trySchedule]
+    | succ k ih =>
+      intro n
+      rw [List.replicate_succ, List.cons_append, trySchedule]
+      have : (List.replicate k (some false) ++ some true :: later).isEmpty = false := by
+        cases k <;> simp [List.replicate_succ]
+      rw [this]
+      simp only [Bool.false_eq_true, if_false]
+      rw [ih (n + 1)]
+      congr 2
+      omega
+  simpa using gen k 0
+
+/-! ## Non-vacuity -/
+
+/-- a catalog: reservation r-0 with one slot (seen twice, once with a stale capacity 2), r-1 with one slot -/
+def demoOfferings : List (Id × Int) := [("r-0", 2), ("r-1", 1), ("r-0", 1)]
+
+/-- claim h1 takes r-0 and r-1; claim h2 finds both exhausted (strict ⇒ deferred); h1 narrows to r-1 (r-0 is released);
+    now h2 gets r-0 -/
+def demoRounds : List Round :=
+  [{ host := "h1", compat := ["r-0", "r-1"] }, { host := "h2", compat := ["r-0", "r-1"] },
+   { host := "h1", compat := ["r-1"] }, { host := "h2", compat := ["r-0", "r-1"] }]
+
+example : (RM.new demoOfferings).remaining "r-0" = 1 ∧ (RM.new demoOfferings).remaining "r-1" = 1 := by decide
+
+example : (rounds true strictMode (St.init demoOfferings) demoRounds).toOption.map (fun st => st.claims)
+    = some [{ host := "h2", reserved := ["r-0"] }, { host := "h1", reserved := ["r-1"] }] := by decide
+
+example : (round true strictMode ((rounds true strictMode (St.init demoOfferings) (demoRounds.take 1)).toOption.getD (St.init []))
+    { host := "h2", compat := ["r-0", "r-1"] }).toOption.map (·.2) = some false := by decide
+
+/-- the same contention in fallback mode: h2 is added and holds nothing -/
+example : (rounds true fallbackMode (St.init demoOfferings) (demoRounds.take 2)).toOption.map (fun st => st.claims)
+    = some [{ host := "h2", reserved := [] }, { host := "h1", reserved := ["r-0", "r-1"] }] := by decide
+
+example : Karp.Spec.ReservedLedger.specObs demoOfferings []
+    [.guarded "h1" ["r-0", "r-1"], .canReserve "h2" "r-0", .release "h1" ["r-0"], .canReserve "h2" "r-0", .remaining "r-1", .canReserve "h2" "r-9"]
+    = [.granted ["r-0", "r-1"], .bool false, .unit, .bool true, .int 0, .panic .nonExistent] := by decide
+
+/-- an unguarded `Reserve` of an exhausted reservation is refused (the panic), it does not over-commit -/
+example : (runOps (RM.new demoOfferings) [.reserve "h1" ["r-1"], .reserve "h2" ["r-1"]]).2 = [.unit, .panic .overReserve] := by decide
+
+example : pickTemplate [.fail, .reservedError, .ok] 0 = none ∧ newClaimDeferred [.fail, .reservedError, .ok] = true := by decide
+example : pickTemplate [.fail, .ok, .reservedError] 0 = some 1 := by decide
+
+/-- finalization of a claim holding r-0 and r-1 whose requirements allowed on-demand and reserved -/
+example :
+    let R : Reqs := [(capacityTypeKey, inReq capacityTypeKey ["on-demand", "reserved"])]
+    let F := finalize "karpenter.sh/reservation-id" R { host := "h1", reserved := ["r-0", "r-1"] }
+    (F.get capacityTypeKey).values = ["reserved"] ∧ ((F.get "karpenter.sh/reservation-id").has "r-1" = true) ∧
+      ((F.get "karpenter.sh/reservation-id").has "r-2" = false) ∧ ((F.get capacityTypeKey).has "on-demand" = false) := by decide
+
+/-! ## Dynamic resource allocation: the allocation tracker (exclusive devices)
+
+Full statement of the property for DRA: *no exclusive device is assigned to two claims and no shared device's capacity or
+counters are over-consumed, for all ResourceSlice / ResourceClaim populations.*  Proved here is the part that lives in
+`allocationtracker.go` (`_partial`): for the tracker model, whenever every committed allocation chose only devices for
+which `IsAllocated` was false (what `Allocator.Allocate` is expected to do — its backtracking search is NOT modelled),
+no in-cluster device is held by two NodeClaims, no holding is recorded twice, the two indices mirror each other, nothing
+already allocated on the API server is handed out again, and none of the four panics is reachable.  Consumable capacity
+and shared counters of multi-allocatable devices are not covered. -/
+
+section DRA
+open Karp.DraTracker
+
+/-- `NodeClaim.Add` gives back the device holdings of the instance types that were simulated but pruned, keyed by its own
+    hostname (a leak here never double-allocates, so no run-time check sees it: pinned as a source fact) -/
+theorem fact_pruned_release :
+    Karp.Gen.C17Facts.prunedReleaseCond = "len(pruned) > 0" ∧
+    Karp.Gen.C17Facts.prunedReleaseBody = ["allocator.ReleaseInstanceType(ctx, unique.Make(n.hostname), pruned...)"] := by decide
+
+theorem fact_dra_delegation :
+    Karp.Gen.C17Facts.allocatorReleaseCalls = ["ReleaseInstanceTypes"] ∧ Karp.Gen.C17Facts.allocationCommitCalls = ["Commit"] := by decide
+
+/-- **C17_dra_exclusive_partial** — every sequence of guarded commits and instance-type releases (any NodeClaims, any
+    instance types, any devices — in-cluster or template —, any pre-allocated set) runs without panic and ends in a
+    consistent tracker. -/
+theorem C17_dra_exclusive_partial (prealloc : List String) (ops : List DraTracker.Op) (hd : disciplined ops = true) :
+    ∃ t, DraTracker.run (Tracker.new prealloc) ops = .ok t ∧ Inv t :=
+  run_ok ops _ (inv_new prealloc) hd
+
+/-- **C17_dra_one_owner** — spelled out: in every such state an in-cluster device has at most one owning NodeClaim, is
+    recorded at most once per (NodeClaim, instance type), and is not one of the devices allocated in the cluster. -/
+theorem C17_dra_one_owner (prealloc : List String) (ops : List DraTracker.Op) (hd : disciplined ops = true) (t : Tracker)
+    (hrun : DraTracker.run (Tracker.new prealloc) ops = .ok t) :
+    (∀ d n1 i1 n2 i2, (d, n1, i1) ∈ t.inflight → (d, n2, i2) ∈ t.inflight → n1 = n2) ∧
+    t.inflight.Nodup ∧ t.template.Nodup ∧ (∀ d n i, (d, n, i) ∈ t.inflight → d ∉ t.prealloc) := by
+  obtain ⟨t', hr, I⟩ := C17_dra_exclusive_partial prealloc ops hd
+  rw [hrun] at hr
+  cases hr
+  exact ⟨I.owner, I.nodupI, I.nodupT, I.pre⟩
+
+/-- **C17_dra_isAllocated** — on a consistent tracker `IsAllocated` is false for an in-cluster device exactly when it is
+    not allocated in the cluster, no OTHER NodeClaim holds it, and this NodeClaim does not hold it for this instance type. -/
+theorem C17_dra_isAllocated (t : Tracker) (I : Inv t) (d : Dev) (nc : NC) (it : IT) (hd : d.template = false) :
+    t.isAllocated d nc it = false ↔
+      (d.name ∉ t.prealloc ∧ (∀ n i, (d.name, n, i) ∈ t.inflight → n = nc) ∧ (d.name, nc, it) ∉ t.inflight) :=
+  ⟨free_cluster t I d nc it hd, fun ⟨h1, h2, h3⟩ => cluster_free_of t d nc it hd h1 h2 h3⟩
+
+/-- **C17_dra_refuses** — a commit that ignores the discipline is refused (panic) rather than recorded: a device held by
+    another NodeClaim, or a holding that already exists. -/
+theorem C17_dra_refuses (t : Tracker) (I : Inv t) (nc : NC) (it : IT) (d : Dev) (hd : d.template = false) :
+    (∀ n' i', (d.name, n', i') ∈ t.inflight → n' ≠ nc → t.commit1 nc it d = .error .otherNodeClaim) ∧
+    ((d.name, nc, it) ∈ t.inflight → t.commit1 nc it d = .error .dupInstanceType) :=
+  ⟨fun n' i' h hne => commit1_refuses_other t I nc n' it i' d hd h hne, commit1_refuses_dup t I nc it d hd⟩
+
+def gpu0 : Dev := { name := "gpu-0", template := false }
+def gpu1 : Dev := { name := "gpu-1", template := false }
+
+/-- nc-a takes gpu-0 for both of its instance types; nc-b is granted only gpu-1; after nc-a releases both types nc-b gets gpu-0 -/
+def demoDra : List DraTracker.Op :=
+  [.guarded "nc-a" [("it-x", [gpu0]), ("it-y", [gpu0])], .guarded "nc-b" [("it-x", [gpu0, gpu1])],
+   .release "nc-a" ["it-x"], .guarded "nc-b" [("it-x", [gpu0])], .release "nc-a" ["it-y"], .guarded "nc-b" [("it-x", [gpu0])]]
+
+example : disciplined demoDra = true := by decide
+example : (DraTracker.run (Tracker.new []) (demoDra.take 2)).toOption.map (·.inflight)
+    = some [("gpu-1", "nc-b", "it-x"), ("gpu-0", "nc-a", "it-y"), ("gpu-0", "nc-a", "it-x")] := by decide
+example : (DraTracker.run (Tracker.new []) (demoDra.take 4)).toOption.map (·.inflight)
+    = some [("gpu-1", "nc-b", "it-x"), ("gpu-0", "nc-a", "it-y")] := by decide
+example : (DraTracker.run (Tracker.new []) demoDra).toOption.map (·.inflight)
+    = some [("gpu-0", "nc-b", "it-x"), ("gpu-1", "nc-b", "it-x")] := by decide
+example : (match DraTracker.run (Tracker.new []) [.guarded "nc-a" [("it-x", [gpu0])], .commit "nc-b" [("it-x", [gpu0])]] with
+    | .error p => some p | .ok _ => none) = some .otherNodeClaim := by decide
+
+end DRA
+
 end Karp.C17
